@@ -526,7 +526,7 @@ func init() {
 				{Name: "leave-twice", Desc: "a refused or abandoned Leave followed by a Leave that the room grants", Body: leaveTwiceBody, MaxDev: 0, ShardLevels: 2, Budget: b, Env: env},
 				{Name: "two-sessions", Desc: "one Client on two sessions: a second Join of the same room names the other session", Body: twoSessionsBody, MaxDev: 0, CutDepth: 1, Workers: 2, Budget: b, Env: env},
 				{Name: "rejoin", Desc: "joining the same channel again (re-synchronisation or after a leave, same or new nickname), every answer, cancellation", Body: body("rejoin"), MaxDev: rejoinPre, ShardLevels: 2, Budget: b, Env: env},
-				drv.RacePart(pre+1, pre, b, body("join"), body("leave"), body("rooms"), kickBody, leaveTwiceBody, twoSessionsBody, body("rejoin")),
+				drv.RacePart(8*pre, pre, b, body("join"), body("leave"), body("rooms"), kickBody, leaveTwiceBody, twoSessionsBody, body("rejoin")),
 			}
 		},
 	})
